@@ -5,7 +5,8 @@ PROPS["C01"] = P(
     "19 content patterns incl. saturated/empty blocks in alternation; tail states fresh/popped/truncated/dirty from_raw_parts) and rank, rank_zero, num_ones/num_zeros, count_ones/count_zeros, len and "
     "indexing are compared with a Vec<bool> model (naive prefix sums) at all positions 0..=len+3 for short vectors, else at all word/sub-block/block boundaries +-1, random positions, len..len+3 and usize::MAX. "
     "A cell is (structure variant | length class/content pattern/tail state); distinct_nontrivial counts the cells in which at least one vector held both a 0 and a 1, or the stratum is a "
-    "saturated-block one (all ones / alternating full and empty blocks) of at least 512 bits",
+    "saturated-block one (all ones / alternating full and empty blocks) of at least 512 bits"
+    ' Since rounds 5-6 of the seeded changes: the vector under a structure may be the product of a shrink-then-grow history (Tail::Regrown); rank_unchecked / rank_zero_unchecked are asked inside their documented domain (Rank9 also at pos == len when the backend has a spare bit); BitVec::rank_hinted is called directly with valid hints at any distance. ',
     dict(builds=["DBG", "UBC"], budget=45),
     dict(builds=["DBG", "UBC", "MIRI"], shards={"MIRI": 6, "DBG": 5, "UBC": 5}),
     hang="violation",
